@@ -25,8 +25,8 @@ for pid in sorted(props.PROPS):
 man = {
     "version": 1,
     "setup_cmd": "bash engine/setup.sh",
-    "hooks": {"guard": "SKINNY_C_VERIF", "enable": "checks compile scratch copies of /repo with -DSKINNY_C_VERIF=1; no guarded hook is committed in /repo so far",
-              "baseline_off_cmd": "cd /repo && make >/dev/null && make check", "source_commits": [], "add_only": True},
+    "hooks": {"guard": "SKINNY_C_VERIF", "enable": "jobs verify the code as shipped (guard off); only the C12 configuration jobs and the native replayer's back-end pinning compile scratch copies with -DSKINNY_C_VERIF -DSKINNY_VERIF_<switch>=<0|1>",
+              "baseline_off_cmd": "cd /repo && make >/dev/null && make check", "source_commits": ["5aefbd2", "7b7693c"], "add_only": True},
     "engines": [{"name": "cbmc-contracts", "path": "engine/vrun.py", "serves_properties": [c["property_id"] for c in checks],
                  "kind_free_text": "mechanical instrumentation of the real sources (engine/instrument.py) + contracts/*.h + goto-instrument --dfcc + cbmc; native replay (replay/)"}],
     "checks": checks,
